@@ -42,7 +42,8 @@ CONSTANTS
     RealTime,     \* timers fire by the clock (Tick) instead of by TO events
     MaxSerial,    \* exhaustive runs: bound on the number of announcements (CONSTRAINT Bounded)
     MaxNow,       \* exhaustive runs: bound on the clock (0: none; the clock is then left out of the state identity)
-    GenDepth      \* generation: length of the histories printed (0: exhaustive run, no history; < 0: stream every step)
+    GenDepth,     \* generation: length of the histories printed (0: no history ghost)
+    Stream        \* generation of one very long history: print one line per step instead of keeping the history
 
 VARIABLES
     serial,       \* iauth_serial
@@ -157,10 +158,10 @@ WEventsOf(i) ==
 WEvents == UNION {WEventsOf(i) : i \in Ids}
 Events == {x[1] : x \in WEvents}
 
-\* the history ghost: kept (GenDepth > 0), not kept (0), or streamed one line per step (GenDepth < 0: very long
-\* histories, one per TLC run; the action has exactly one successor, so the line is printed once per step)
-Record(r) == IF GenDepth > 0 THEN Append(hist, r)
-             ELSE IF GenDepth < 0 /\ PrintT("@@S" \o ToJson(r)) THEN hist
+\* the history ghost: kept (GenDepth > 0), or streamed one line per step (Stream: very long histories, one per TLC
+\* run; the generator's action has exactly one successor, so the line is printed once per step), or absent
+Record(r) == IF Stream THEN (IF PrintT("@@S" \o ToJson(r)) THEN hist ELSE hist)
+             ELSE IF GenDepth > 0 THEN Append(hist, r)
              ELSE hist
 
 Do(e) ==
